@@ -65,7 +65,7 @@ def model_term(case):
     return "trace init %s" % W.clist(W.cop(o) for o in case["ops"])
 
 
-KNOWN_EXT_ERRORS = ("KeyError:\"Unable to synchronously open object (object 'PropertyGroups' doesn't exist)",)  # C05 finding pg-listing-keyerror
+KNOWN_EXT_ERRORS: tuple = ()  # (the two C05 defects that used to raise here were repaired: /repo d375083, 273865f)
 
 
 def oracle_ext(case, obs):
@@ -73,8 +73,6 @@ def oracle_ext(case, obs):
     for i, (op, st) in enumerate(zip(case["ops"], obs["steps"])):
         oc = str(st["outcome"])
         if oc.startswith("error") and not any(k in oc for k in KNOWN_EXT_ERRORS):
-            if "KeyError:UUID(" in oc and op["op"] == "copy":
-                continue  # C05 finding copy-fails-dangling-member (a property group still lists a removed data set)
             fails.append({"key": "ext-unexpected-exception", "what": f"op {i} {op}: {oc[:200]}"})
             break
     for k, per_ws in enumerate(obs["reopen_diffs"]):
